@@ -18,6 +18,7 @@ def prodL : List Nat → Nat
 def Shp.size : Shp → Nat
   | .arr d => prodL d
   | .blk bs => (bs.map prodL).sum
+  | .het bs => (bs.map prodL).sum
 
 theorem prodL_append (a b : List Nat) : prodL (a ++ b) = prodL a * prodL b := by
   induction a with
@@ -46,6 +47,16 @@ theorem size_collapseShp (s : Shp) : (collapseShp s).size = s.size := by
   cases s with
   | arr d => rfl
   | blk bs =>
+    cases bs with
+    | nil => rfl
+    | cons d rest =>
+      simp only [collapseShp]
+      by_cases hc : collapsible (d :: rest) = true
+      · simp only [hc, if_true, Shp.size, prodL, List.map_cons, List.sum_cons]
+        rw [collapsible_sum d rest (by simpa [collapsible] using hc)]
+        ring
+      · simp [hc]
+  | het bs =>
     cases bs with
     | nil => rfl
     | cons d rest =>
@@ -112,6 +123,7 @@ theorem size_arr_of_isArr {s : Shp} (h : isArr s = true) : s.size = prodL (dimsO
   cases s with
   | arr d => rfl
   | blk bs => simp [isArr] at h
+  | het bs => simp [isArr] at h
 
 theorem size_blk_of_eq {s : Shp} (h : s = .blk (blocksOf s)) : s.size = ((blocksOf s).map prodL).sum := by
   rw [h]; rfl
